@@ -46,12 +46,21 @@ def eval_macro(macro, args, prev_ths):
 
 def check_expansion(rule, args, prev_ths):
     """Sequent established by the expanded step under placeholder premises; (Thm | None, error)."""
+    check_expansion.extra_gaps = None
     p = Proof()
     for i, th in enumerate(prev_ths):
         p.add_item(i, 'sorry', th=th)
     p.add_item(len(prev_ths), rule, args=args, prevs=list(range(len(prev_ths))))
     try:
-        th = theory.check_proof(p, check_level=0)
+        from kernel.report import ProofReport
+        rpt = ProofReport()
+        th = theory.check_proof(p, rpt, check_level=0)
+        # the only placeholders allowed are the premise lines themselves
+        left = [sstr(g) for g in rpt.gaps]
+        for t in prev_ths:
+            if sstr(t) in left:
+                left.remove(sstr(t))
+        check_expansion.extra_gaps = left
         return th, None
     except RecursionError:
         raise
@@ -86,6 +95,13 @@ def judge(run, rule, args, prev_ths, where, origin):
         # the fast path gives up where the expansion succeeds: incomplete, but nothing is claimed
         run.stat('eval-fails-expansion-ok:' + rule)
         return 'eval-fails'
+    if getattr(check_expansion, 'extra_gaps', None):
+        run.violation('property', 'macro %s: the checked expansion contains unproved placeholders %s besides the premises; evaluation reports %s [%s]'
+                      % (rule, check_expansion.extra_gaps[:3], sstr(ev), origin),
+                      dict(macro=rule, args=sstr(args), premises=[sstr(t) for t in prev_ths], eval=sstr(ev), gaps=check_expansion.extra_gaps, where=where,
+                           reproduce='macro.eval(args, prevs), then theory.check_proof(<sorry premises + macro step>, ProofReport(), check_level=0): rpt.gaps'),
+                      key=key_base + ':expansion-has-gaps')
+        return 'expansion-has-gaps'
     extra = [h for h in ex.hyps if h not in allowed_hyps and h not in ev.hyps]
     if ex.prop != ev.prop or extra:
         run.violation('property', 'macro %s: evaluation reports %s but the expansion establishes %s [%s]' % (rule, sstr(ev), sstr(ex), origin),
@@ -298,6 +314,51 @@ def run_check(tier, seed):
     except Exception as e:
         run.stat('ho_gen:' + type(e).__name__ + ':' + str(e)[:80])
     run.stat('ho-judged:%d' % ho_done)
+
+    # ---- the auto macro (used by the integration back end, absent from the recorded proofs): equations that are instances
+    #      of its conditional normalisation rules, with the side conditions supplied as premises; every input is judged twice
+    #      in one process, the second time with the premises at other positions (results must not depend on what ran before)
+    auto_done = 0
+    try:
+        from data import real as _dreal   # noqa: registers the normalisation rules
+        from kernel.type import RealType, NatType
+        from kernel.term import Real, Nat
+        context.set_context('transcendentals', vars={'x': 'real', 'y': 'real', 'z': 'real', 'm': 'nat', 'n': 'nat'})
+        rules_ = ['rpow_sqrt', 'rpow_neg_one', 'rpow_0', 'rpow_1', 'rpow_rpow', 'rpow_rpow_nat1', 'rpow_mul', 'rpow_base_divide', 'rpow_exp',
+                  'rpow_abs', 'real_of_nat_add', 'real_of_nat_mul', 'real_pow_1', 'real_pow_one']
+        xs = [Var('x', RealType), Var('y', RealType), Var('z', RealType)]
+        ns = [Var('m', NatType), Var('n', NatType)]
+        for k in range(24 if tier == 'quick' else 300):
+            name = r.choice(rules_)
+            if not theory.thy.has_theorem(name):
+                continue
+            th = theory.get_theorem(name)
+            inst = Inst()
+            for v in th.prop.get_svars():
+                if v.T == RealType:
+                    inst[v.name] = r.choice(xs) if r.random() < 0.7 else Real(r.choice([2, 3, 5]))
+                elif v.T == NatType:
+                    inst[v.name] = r.choice(ns) if r.random() < 0.5 else Nat(r.choice([2, 3]))
+            try:
+                As, C = th.prop.subst_norm(inst).strip_implies()
+            except Exception:
+                run.stat('auto-inst-fails')
+                continue
+            goal = C if r.random() < 0.7 else Eq(C.rhs, C.lhs)
+            prems = [Thm(a, a) for a in As]
+            extra = Thm(Var('x', RealType).__class__('Rv', BoolType), Var('Rv', BoolType)) if False else Thm(Var('Rv', BoolType), Var('Rv', BoolType))
+            for variant, prevs in (('premises in order', prems), ('an unrelated premise first', [extra] + prems)):
+                res = judge(run, 'auto', goal, prevs, 'generated', 'generated instance of %s, %s' % (name, variant))
+                run.count(('gen-auto', name, g_tm(goal), variant), nontrivial=(res == 'agree'))
+                auto_done += 1
+            if prems and r.random() < 0.4:
+                res = judge(run, 'auto', goal, [], 'generated', 'generated instance of %s, side conditions not supplied' % name)
+                run.count(('gen-auto', name, g_tm(goal), 'no premises'), nontrivial=(res == 'agree'))
+    except RecursionError:
+        raise
+    except Exception as e:
+        run.stat('auto_gen:' + type(e).__name__ + ':' + str(e)[:80])
+    run.stat('auto-judged:%d' % auto_done)
     run.sample(dict(macro='imp_conj', goal='A & B --> B & A', expected='evaluation and checked expansion agree'))
     run.cov['rule'] = ('macro steps (level >= 1 or unset) of up to %d recorded proofs per theory (%s), each judged in its own context; 15%% with a premise '
                        'dropped, 10%% with premises permuted, 7%% with the goal replaced by another recorded goal; generated imp_conj / imp_disj goals (members '
